@@ -148,8 +148,13 @@ class Scen:
         m = []
         n = c.st.deliverable()
         if n:
-            m.append(("rx.all", lambda: c.deliver_to_server()))
             sent = len(self.stream) - n
+            if self.case.get("drip"):
+                # a sequential client with late bodies: by default each head arrives alone, its body afterwards
+                cuts = sorted(b for b in set(self.bounds) | set(self.inner[::2]) if b > sent)
+                if cuts and cuts[0] - sent < n:
+                    m.append(("rx.drip", lambda k=cuts[0] - sent: c.deliver_to_server(k)))
+            m.append(("rx.all", lambda: c.deliver_to_server()))
             nxt = next((b for b in self.bounds if b > sent), None)
             if nxt is not None and nxt - sent < n:
                 m.append(("rx.msg", lambda k=nxt - sent: c.deliver_to_server(k)))
@@ -329,6 +334,10 @@ def cases(quick):
     for n in (31, 32, 33, 40):
         out.append({"name": f"pipeline{n}-park0", "stream": pipe(n), "behaviours": ["park"] + ["ret"] * 63, "faults": [], "bound": 1})
     out.append({"name": "pipeline40-bodies", "stream": pipe(40, "post"), "behaviours": ["readpark"] + ["read"] * 63, "faults": [], "bound": 1})
+    # history on one kept-alive connection: many requests, each dispatched before its body has arrived
+    for n in (34, 70):
+        out.append({"name": f"drip{n}-late-bodies", "stream": pipe(n, "post"), "behaviours": ["read"], "faults": [], "bound": 1, "drip": True})
+    out.append({"name": "drip34-late-chunked", "stream": pipe(34, "chunked"), "behaviours": ["read", "ret"], "faults": [], "bound": 1, "drip": True})
     for name, s in HOSTILE.items():
         out.append({"name": "hostile-" + name, "stream": s, "behaviours": ["read", "ret"], "faults": ["peerclose"]})
         out.append({"name": "after-valid-" + name, "stream": req(0) + s.replace(b"/0 ", b"/1 "), "behaviours": ["ret", "read"], "faults": []})
